@@ -17,7 +17,7 @@ fn leaf(script: &[Step]) -> ChildSpec {
 }
 
 fn comb_case(family: Family, container: Container, children: Vec<ChildSpec>) -> Case {
-    Case { root: CombSpec { family, container, children, variant: 0 }, schedule: vec![], drain: vec![0; 8], no_drain: false, fair_polls: 0, post_polls: 0 }
+    Case { root: CombSpec { family, container, children, variant: 0 }, schedule: vec![], drain: vec![0; 8], no_drain: false, fair_polls: 0, post_polls: 0, storm: false }
 }
 
 fn comb(prop: &'static str, name: &str, case: Case) -> Regress {
